@@ -27,12 +27,15 @@ class Test:
         # of a literal command line (the former has shell-characters escaped).
         if isinstance(cmd, Node):
             cmd = [cmd]
+        elif isinstance(cmd, list):
+            # The script may go on using its list (and dict) for the next test.
+            cmd = list(cmd)
         wrap = not driver or driver.wrap_children
         self.cmd = context.env.run_arguments(cmd) if wrap else cmd
 
         self.inputs = [i for i in iterate(cmd)
                        if isinstance(i, Node) and i.creator]
-        self.env = environment
+        self.env = dict(environment)
 
         primary = first(cmd)
         if isinstance(primary, Node) and primary.creator:
